@@ -189,8 +189,36 @@ def holds(op, v, bound):
 
 
 def fold_is_attribute(src):
-    """Per-KMIPVersion attribute tag sets from enums.is_attribute, by interpreting its straight-line list algebra."""
-    fn = get_function(src.tree(ENUMS), 'is_attribute')
+    """Per-KMIPVersion attribute tag sets from enums.is_attribute: the function is folded once per version with a probe in place of the
+    tag - the container the probe is tested against (`tag in <container>`) is the set of attribute tags of that version.  Module-level
+    tables the function consults are folded from their defining statements."""
+    import copy as _copy
+    from ..fold import Folder, Unfoldable, Raised, Enum, MemberProbe, ProbeHit
+    tree = src.tree(ENUMS)
+    fn = get_function(tree, 'is_attribute')
+    versions = [x.targets[0].id for c in tree.body if isinstance(c, ast.ClassDef) and c.name == 'KMIPVersion' for x in c.body
+                if isinstance(x, ast.Assign) and isinstance(x.targets[0], ast.Name) and x.targets[0].id.isupper()]
+    arms = {}
+    try:
+        for v in versions:
+            f = Folder(models={'copy.deepcopy': _copy.deepcopy, 'copy.copy': _copy.copy, 'deepcopy': _copy.deepcopy}, steps=200000)
+            f.module = tree
+            try:
+                f.call_function(fn, [MemberProbe(), Enum('KMIPVersion', v)], {})
+                raise Unfoldable('no membership test reached')
+            except ProbeHit as hit:
+                if hit.negated or not all(isinstance(x, Enum) and x.cls == 'Tags' for x in hit.container):
+                    raise Unfoldable('container of the membership test')
+                arms[v] = {x.name for x in hit.container}
+        if arms:
+            return arms
+    except (Unfoldable, Raised):
+        arms = {}
+    return interpret_is_attribute(fn)
+
+
+def interpret_is_attribute(fn):
+    """the straight-line list algebra is_attribute has on the pinned tree"""
     env = {}
 
     def ev(e):
